@@ -293,8 +293,10 @@ def _run(sc, case):
     return trs[0]
 
 
-def _obs(tr):
-    evs = [e.snap for e in tr.events if e.name != 'poll']
+def _obs(tr, polls=False):
+    # Poll events are timer events; with every segment arriving at the same
+    # simulated instant they too must not depend on the segmentation
+    evs = [e.snap for e in tr.events if polls or e.name != 'poll']
     outs = [bytes(s.out_bytes) for s in tr.world.socks]
     calls = [(c.op, c.outcome, c.exc, c.wrote) for c in tr.calls]
     return evs, outs, calls
@@ -317,7 +319,8 @@ def execute(case):
     step['cuts'] = []
     step['gaps'] = [0]
     ref = _run(sc, case)
-    robs = _obs(ref)
+    with_polls = not case.get('other')
+    robs = _obs(ref, with_polls)
     names = ref.names()
     h = [ref.digest()]
     res.sim_us = ref.world.now
@@ -338,7 +341,7 @@ def execute(case):
         nvar += 1
         h.append(tr.digest())
         res.sim_us += tr.world.now
-        obs = _obs(tr)
+        obs = _obs(tr, with_polls)
         if any(rlen < c < total for c in cs):
             res.stats['probe:cut_inside_frames'] += 1
         if any(0 < c < rlen for c in cs):
